@@ -137,10 +137,13 @@ struct StateProp : Prop {
 			bool has_f = frame_pos < e.bus.done.size() && e.bus.done[frame_pos].processed;
 			if (!has_w && !has_f) break;
 			uint64_t ws = has_w ? e.bus.wire[wire_pos].step : UINT64_MAX, fs = has_f ? e.bus.done[frame_pos].last_read_step : UINT64_MAX;
-			if (ws <= fs) { model.apply_downlink(e.bus.wire[wire_pos].msg); wire_pos++; }
+			if (ws <= fs) { if (before_wire && wire_pos >= before_wire_from) { before_wire(); before_wire = nullptr; } model.apply_downlink(e.bus.wire[wire_pos].msg); wire_pos++; }
 			else { for (auto &m : e.bus.done[frame_pos].msgs) model.apply_uplink(m); frame_pos++; }
 		}
 	}
+	// optimistic effect of a command that is not carried by its message: takes place before the command's own message (and thus
+	// before any answer to it), even if the calling thread returns only after the answer has been processed
+	std::function<void()> before_wire; size_t before_wire_from = 0;
 
 	void on_session_start(Engine &e, int, int ret) override {
 		if (ret != 0) return;
@@ -166,9 +169,12 @@ struct StateProp : Prop {
 	void after_op(Engine &e, OpRec &o) override {
 		const std::string &k = o.op->gets("op");
 		if (k == "hl" && o.ret == 0) {
-			ingest(e);
 			const std::string &fn = o.op->gets("fn");
 			const J &s = (*o.op)["s"];
+			bool rev_done = false;
+			if (fn == "request_reverser_state") { before_wire_from = o.wire_before; before_wire = [&]() { model.request_reverser(s[0].str()); rev_done = true; }; }
+			ingest(e);
+			before_wire = nullptr;
 			if (fn == "switch_point" || fn == "set_signal") {
 				model.set_dcc_state_id(s[0].str(), s[1].str());
 				// port messages of this command that have not reached the wire yet
@@ -178,7 +184,7 @@ struct StateProp : Prop {
 					model.pending_hl[a.id] += std::max(0, nports - seen);
 				}
 			}
-			if (fn == "request_reverser_state") model.request_reverser(s[0].str());
+			if (fn == "request_reverser_state" && !rev_done) model.request_reverser(s[0].str());
 		}
 		if (is_c08 && k == "get") check_reader(e, o);
 	}
